@@ -422,18 +422,18 @@ CONTRACTS_NOT_DISCHARGED["lisp_parsers.parsing_utils:parse_signature@proved"] = 
 
 # ---- deductive: parse_signature — which parameters, with which types (the ORDER of the parameters is not part of this contract) ---------
 def _inner_m(value):
-    inpre = "exists_int(lambda a_: grouped_params[a_] == s, 0, _i)"
+    inpre = "s in prefix(grouped_params, _i)"
     return dict(invariants=[
         "fresh(signature)",
         f"forall_str(lambda s: (s in signature) == (at_loop_entry(s in signature) or {inpre}))",
         f"forall_str(lambda s: implies({inpre}, signature[s] is {value}))",
         f"forall_str(lambda s: implies(at_loop_entry(s in signature) and not {inpre}, signature[s] is at_loop_entry(signature[s])))"],
-        membership_lemma=True, modifies=["dict_str_ref.keys[signature]", "dict_str_ref.map[signature]"])
+        prefix_lemma=True, modifies=["dict_str_ref.keys[signature]", "dict_str_ref.map[signature]"])
 
 
-# NOT DISCHARGED either (4 of 67 obligations stay `unknown`: the step over a dash, where membership of the waiting names given as a
-# sequence has to be matched with the position-wise invariants of the inner loop); kept for the record, not registered.
-CONTRACTS_NOT_DISCHARGED["lisp_parsers.parsing_utils:parse_signature@members"] = dict(
+# (discharged once the inner loops' invariants were phrased over the prefix of the waiting names, with the engine supplying the three
+#  elementary facts about prefixes of the iterated sequence — `prefix_lemma`)
+CONTRACTS["lisp_parsers.parsing_utils:parse_signature@members"] = dict(
     prop="C01", shards=4,
     params={"parameters": ("iter", "str"), "domain_types": ("ref", "dict_PDDLType")},
     locals={"signature": ("ref", "dict_str_ref"), "grouped_params": ("seq", "str")},
